@@ -342,6 +342,16 @@ class MultiDictHistory(Scenario):
                     imm2 = ds.ImmutableMultiDict(real)
                     if not (imm == imm2) or hash(imm) != hash(imm2):
                         out.violate(f"{pre}/ImmutableMultiDict/equal-snapshots-differ-in-eq-or-hash", f"{imm!r}")
+                    # the same content reached through another history (keys inserted in the opposite order)
+                    rev = [(kk, vv) for kk in reversed(list(real.keys())) for vv in real.getlist(kk)]
+                    for icls, a1, a2 in (
+                        (ds.ImmutableMultiDict, list(real.items(multi=True)), rev),
+                        (ds.ImmutableDict, list(real.items()), list(reversed(list(real.items())))),
+                        (ds.ImmutableTypeConversionDict, list(real.items()), list(reversed(list(real.items())))),
+                    ):
+                        i1, i2 = icls(a1), icls(a2)
+                        if i1 == i2 and guard(lambda: hash(i1)) != guard(lambda: hash(i2)):
+                            out.violate(f"{pre}/{icls.__name__}/eq-true-but-hash-differs", f"{i1!r} == {i2!r} while their hashes differ")
                     for what, f in (("copy.copy", copy.copy), ("deepcopy", copy.deepcopy), ("pickle", lambda o: pickle.loads(pickle.dumps(o)))):
                         c2 = f(imm)
                         if not (c2 == imm) or guard(lambda: hash(c2)) != h:
